@@ -23,6 +23,8 @@ class KeyEnc:
 
     def enc(self, ids):
         n = self.name
+        if n == "raw":
+            return np.array(ids, dtype=np.int64)
         if n == "f64":
             return np.array([np.nan if i == NULL else float(i) for i in ids], dtype=float)
         if n == "i64":
@@ -52,6 +54,8 @@ class KeyEnc:
                 return NULL
             if n == "f64":
                 return int(x) if float(x) == int(x) else JUNK
+            if n == "raw":
+                return int(x)
             if n in ("i64", "i32"):
                 return int(x) // 10 if int(x) % 10 == 0 else JUNK
             if n == "str" or n.startswith("cat"):
